@@ -1,13 +1,8 @@
 #!/usr/bin/env bash
-# tools/without_fix.sh <commit> <ID>... — temporarily reverse-apply a fix: commit in /repo's
-# working tree, run the quick checks (expected: VIOLATION via the committed replay), restore.
+# tools/without_fix.sh <commit> <ID>... — in a SCRATCH copy of /repo, reverse-apply a fix: commit
+# and run the quick checks (expected: VIOLATION via the committed replay). /repo is not touched.
 set -u
 C="$1"; shift
-cd /repo || exit 2
-git diff --quiet || { echo "refusing: /repo dirty"; exit 2; }
-trap 'git -C /repo checkout -- . ; echo "[without_fix] restored /repo"' EXIT
-git show "$C" | git apply -R || exit 2
-for ID in "$@"; do
-  /verif/check.sh "$ID" quick | grep -E "^(VIOLATION|KNOWN-FINDING|SUMMARY|INFRA)" | cut -c1-400 | head -8
-  echo "[without_fix] $ID rc=${PIPESTATUS[0]}"
-done
+git -C /repo show "$C" > /tmp/mut-fix-$C.diff
+/verif/tools/mut.py --patch-reverse /tmp/mut-fix-$C.diff -- "$@"
+rm -f /tmp/mut-fix-$C.diff
